@@ -16,6 +16,17 @@ CHECKS = {
         "code), structural shrinking",
         "ref": "DESIGN.md 4 C01",
     },
+    "C02": {
+        "level": "Differential search over optimizer configurations: generated grammars (optimizer-bait and full "
+        "profiles) x {default pipeline, each exported pass alone, three random pass lists}, each configuration "
+        "in its own process, compared with optimizer=None for the interpreter and for generated code (outcome "
+        "class and tree).",
+        "note": "Trusted: process isolation per configuration (the optimizer mutates process-wide rule objects); "
+        "failure positions are deliberately not compared.",
+        "technique": "Hypothesis-generated grammars and pass lists, differential oracle (optimizer on vs off), "
+        "structural shrinking",
+        "ref": "DESIGN.md 4 C02",
+    },
     "C03": {
         "level": "Exhaustive enumeration of all two-rule grammars with a start expression of <= 4 (quick) / <= 5 "
         "(thorough) nodes over 10 terminals and 11 operators x 34 inputs, plus Hypothesis-generated larger "
